@@ -15,11 +15,12 @@ def joinDots (l : List Nat) : String := ".".intercalate (l.map toString)
 /-- header `topo=2.2/2.2` (sockets `/`, cores `.`; prefix `np:` = no package objects) -/
 def parseTopo (s : String) : Topo × Bool :=
   let np := s.startsWith "np:"
-  let body := if np then (s.drop 3).toString else s
+  let pc := s.startsWith "pc:"        -- no core objects: the PUs are counted as cores
+  let body := if np || pc then (s.drop 3).toString else s
   let socks := (body.splitOn "/").map dots
   let cores := socks.flatten
   ({ nc := cores.length, pus := fun c => cores.getD c 1,
-     socks := if np then [] else socks.map List.length }, np)
+     socks := if np then [] else socks.map List.length, noCoreObjs := pc }, np)
 
 def kvOf (l : String) : List (String × String) :=
   (l.splitOn " ").filterMap (fun kv => match kv.splitOn "=" with
@@ -154,6 +155,13 @@ def liveMonitors (bind : String) (use : Bool) (pm : List Nat) (req : Option Nat)
     if (ws.filter (fun (g', _, _, _, _) => g' == g)).length != 1 then s!"live: worker {g} listed in more than one pool" :: acc else acc) []
   c1 ++ c2 ++ c3.reverse ++ c4.reverse ++ c5.reverse
 
+def threadsArgOf (s : String) : ThreadsArg :=
+  if s == "-" then .dflt else if s == "cores" then .cores else if s == "all" then .all
+  else .num (s.toNat?.getD 0)
+
+def coresArgOf (s : String) : CoresArg :=
+  if s == "-" then .dflt else if s == "all" then .all else .num (s.toNat?.getD 0)
+
 def runLive (c : Case) : String :=
   let tl := firstWith c.lines "topo "
   let tkv := kvOf tl
@@ -164,13 +172,16 @@ def runLive (c : Case) : String :=
   let use := c.getNat "use" != 0
   let pmL := if c.get "mask" == "all" then implPm else dots (c.get "mask")
   let cfg0 : Cfg := { t := t, pm := fun q => pmL.contains q, usePm := use, used := 0, maxCores := 0, n := 0 }
-  let nAll := if use then countMask cfg0 else numPus t
-  let nCores := if use then ((List.range t.nc).filter (fun cc => (List.range (t.pus cc)).any (fun p => cfg0.pm (base t cc + p)))).length else t.nc
   let thr := c.get "threads"
-  let n := if thr == "all" then nAll else if thr == "cores" then nCores else thr.toNat?.getD 0
-  let maxc := if c.getNat "cores" == 0 then n else c.getNat "cores"
-  let cfg : Cfg := { cfg0 with n := n, maxCores := maxc }
-  let ctx := s!"bind {bind}, threads {thr}, " ++ (if use then "process mask used" else if maxc < n then "process mask ignored, cores below thread count" else "process mask ignored")
+  -- thread count and `pika.cores` as the command-line model computes them (Model/AffCmd.lean)
+  let cmd : Cmd := { threads := threadsArgOf thr,
+                     cores := if c.getNat "cores" == 0 then .dflt else .num (c.getNat "cores"),
+                     ignoreMask := !use, bind := modeOf bind }
+  let cfg : Cfg := (cmdCfg cmd t cfg0.pm).getD cfg0
+  let n := cfg.n
+  let maxc := cfg.maxCores
+  let ctx := s!"bind {bind}, threads {n}, " ++ (if use then "process mask used" else if maxc < n then "process mask ignored, cores below thread count" else "process mask ignored") ++
+    (if thr == "all" || thr == "cores" then s!", --pika:threads={thr}" else "")
   let mon := liveMonitors bind use pmL (if maxc < n && !use then some n else some n) ctx c.lines
   let monS := if mon.isEmpty then "monitors ok" else "monitors FAIL: " ++ " | ".intercalate mon
   let hd := firstWith c.lines "live "
@@ -212,13 +223,6 @@ def runLive (c : Case) : String :=
 /-! ### command-line layer (harness/e0/affinity_cmd.cpp): `command_line_handling::call` +
     `affinity_data::init` under synthetic machines -/
 
-def threadsArgOf (s : String) : ThreadsArg :=
-  if s == "-" then .dflt else if s == "cores" then .cores else if s == "all" then .all
-  else .num (s.toNat?.getD 0)
-
-def coresArgOf (s : String) : CoresArg :=
-  if s == "-" then .dflt else if s == "all" then .all else .num (s.toNat?.getD 0)
-
 def runCmd (c : Case) : String :=
   let (t, np) := parseTopo (c.get "topo")
   let use := c.getNat "use" != 0
@@ -249,7 +253,8 @@ def runCmd (c : Case) : String :=
         [s!"cmd: thread-count keyword '{thr}' gives {implN} threads, rejected as oversubscription (bind {bind})"] else []) ++
       monitorLine "init" bind implN npus implUse implPm implCores ((look tkv "nc").toNat?.getD 0) implInit
     else if implCmd.startsWith "cmd error" then
-      (if thr != "0" && !kw then [s!"cmd: command line with --pika:threads={thr} rejected"] else [])
+      (if kw then [s!"cmd: start-up with --pika:threads={thr} rejected as zero threads (bind {bind})"]
+       else if thr != "0" then [s!"cmd: command line with --pika:threads={thr} rejected"] else [])
     else [s!"cmd: no result line"]
   let monS := if m1.isEmpty then "monitors ok" else "monitors FAIL: " ++ " | ".intercalate m1
   match cmdCfg cmd t (fun q => reqPm.contains q) with
